@@ -10,7 +10,8 @@ Record Flow (s : cst) : Prop := {
   fl_pre : fifo s <> [] -> rendering s = true -> cycle_err s = false;
   fl_err : cycle_err s = true -> rendering s = true -> iterating s = true \/ popped s <> [];
   fl_end : rendering s = true -> ended s = false;
-  fl_endq : ended s = true -> fifo s = []      (* nothing is sent to the heap manager once it was told to end *)
+  fl_endq : ended s = true -> fifo s = [];     (* nothing is sent to the heap manager once it was told to end *)
+  fl_noerr : idle_ph s = false -> errored s = false   (* a latched error belongs to an idle container *)
 }.
 
 Lemma Flow_init p a d : Flow (init_cst p a d).
@@ -36,17 +37,17 @@ Proof. destruct l; discriminate. Qed.
 
 Lemma Flow_same s s' :
   iterating s' = iterating s -> fifo s' = fifo s -> popped s' = popped s -> cycle_err s' = cycle_err s ->
-  ended s' = ended s -> rendering s' = rendering s -> Flow s -> Flow s'.
-Proof. intros A B C D E F [F1 F2 F3 F4 F5 F6]. constructor; rewrite ?A, ?B, ?C, ?D, ?E, ?F; assumption. Qed.
+  ended s' = ended s -> rendering s' = rendering s -> idle_ph s' = idle_ph s -> errored s' = errored s -> Flow s -> Flow s'.
+Proof. intros A B C D E F G H [F1 F2 F3 F4 F5 F6 F7]. constructor; rewrite ?A, ?B, ?C, ?D, ?E, ?F, ?G, ?H; assumption. Qed.
 
 Lemma idle_quiet s : Flow s -> ph s = Idle -> iterating s = false /\ popped s = [].
 Proof.
-  intros [F1 F2 _ _ _ _] P. pose proof (rendering_idle _ P) as R. split.
+  intros [F1 F2 _ _ _ _ _] P. pose proof (rendering_idle _ P) as R. split.
   - destruct (iterating s) eqn:E; [|reflexivity]. destruct (F1 eq_refl) as [_ R']. congruence.
   - destruct (popped s) eqn:E; [reflexivity|]. destruct F2 as [_ R']; [congruence|congruence].
 Qed.
 
-Ltac flow_same s := apply (Flow_same s); unfold rendering; simp_state; try reflexivity;
+Ltac flow_same s := apply (Flow_same s); unfold rendering, idle_ph; simp_state; try reflexivity;
   repeat match goal with E : ph _ = _ |- _ => rewrite E end; try reflexivity.
 
 Ltac facts :=
@@ -66,7 +67,7 @@ Proof.
   all: try (repeat match goal with |- context [if ?c then _ else _] => destruct c end; flow_same s; assumption).
   all: facts.
   all: try (match goal with P : ph ?s0 = Idle, F0 : Flow ?s0 |- _ => destruct (idle_quiet s0 F0 P) as [It Po] end).
-  all: match goal with F0 : Flow _ |- _ => destruct F0 as [F1 F2 F3 F4 F5 F6] end; constructor; unfold rendering in *; simp_state;
+  all: match goal with F0 : Flow _ |- _ => destruct F0 as [F1 F2 F3 F4 F5 F6 F7] end; constructor; unfold rendering, idle_ph in *; simp_state;
      repeat match goal with E : ph _ = _ |- _ => rewrite E in * end; simp_state; intros.
   all: try discriminate; try congruence; try (split; congruence); auto.
   all: try (match goal with Hm : match popped ?s0 with [] => false | _ :: _ => _ end = true |- _ =>
@@ -143,9 +144,10 @@ Theorem cycle_progress p a d evs s :
   run (init_cst p a d) evs = Some s -> ph s <> Idle ->
   exists e, client_event e = false /\ enabled s e.
 Proof.
-  intros R NI. destruct (reachable_PInv _ _ _ _ _ R) as [[U K Q C S] [F1 F2 F3 F4 F5 F6]].
+  intros R NI. destruct (reachable_PInv _ _ _ _ _ R) as [[U K Q C S] [F1 F2 F3 F4 F5 F6 F7]].
   destruct (ph s) as [|wd ht rows n pc pushes|] eqn:P; [congruence| |].
-  2: { exists CT_RENDERERR. split; [reflexivity|]. unfold enabled, step. rewrite P. discriminate. }
+  2: { exists CT_RENDERERR. split; [reflexivity|]. unfold enabled, step. rewrite P.
+       rewrite F7 by (unfold idle_ph; rewrite P; reflexivity). discriminate. }
   assert (Rn : rendering s = true) by (unfold rendering; rewrite P; reflexivity).
   pose proof (F5 Rn) as En.
   destruct (fifo s) as [|q rest] eqn:Ff.
